@@ -6,7 +6,8 @@ proofs : lean/PyAbel/Props/C13.lean (centre of mass of a symmetric profile = its
          nowhere else: the argmax is unique, so "first argmax" is the centre)
 K      : find_origin(com / convolution / image_center) vs the Lean model, bit-for-bit on integer-valued images
 S      : point-symmetric random images about every centre on the half-pixel grid near the middle; whole-pixel
-         translations; positive scaling; axes; Gaussian spots for the Gaussian fit
+         translations; positive scaling; axes; signed symmetric images (convolution); Gaussian spots for the Gaussian fit, also on
+         frames more than a thousand pixels long
 """
 import json
 
